@@ -7,7 +7,7 @@ from props import c03
 
 PROPERTY = 'C02'
 LEVEL = 'exploration'
-RULE = ('(i) G1 programs and repository snippets x drop_semi in {False, True} x (for sources with comments) parsed with or without comment capture; (ii) adjacency product, enumerated (every fifth case also with a captured block comment in every gap): '
+RULE = ('(i) G1 programs, repository snippets and programs made long by one sibling list of 1200 items (printed under the default recursion limit) x drop_semi in {False, True} x (for sources with comments) parsed with or without comment capture; (ii) adjacency product, enumerated (every fifth case also with a captured block comment in every gap): '
         'slot templates (every binary/prefix/postfix/keyword operator, return/throw/case/new/var/else/do-while/'
         'typeof/void/delete/in/instanceof, function and accessor names, member access on every literal kind, division, '
         'conditional, labels, statements after ) } else do) x operands chosen by first/last character class (ASCII and '
@@ -202,6 +202,14 @@ def run_shard(shard):
             one(src, 'corpus')
         for i, src in enumerate(gen_program.array_shapes()):
             one(src, 'array_shapes', sample=(i % 50 == 0))
+        import sys
+        limit = sys.getrecursionlimit()
+        sys.setrecursionlimit(1000)   # the interpreter's default
+        try:
+            for name, src in gen_program.long_lists(1200):
+                one(src, 'long_' + name, sample=False)
+        finally:
+            sys.setrecursionlimit(limit)
     else:
         n = 0
         for idx, (src, meta) in enumerate(product_cases()):
